@@ -83,6 +83,7 @@ func (f Features) Names() []string {
 	add(f.Cleanup, "tmp", "with", "defer")
 	add(f.Bytes, "byte-output")
 	add(f.Use, "use", "qualified-names")
+	add(f.More, "keys", "order-less-than", "str-module", "rationals")
 	return out
 }
 
@@ -287,6 +288,9 @@ func (g *Gen) expr(k Kind, depth int) *Node {
 		default:
 			if g.F.More && g.chance(30) {
 				d := 1 + g.R.Intn(4)
+				if g.chance(50) {
+					return CapCmd("/", g.numeric(depth-1), Str(fmt.Sprint(d+1))) // often a rational
+				}
 				return CapCmd("/", Str(fmt.Sprint(d*g.R.Intn(6))), Str(fmt.Sprint(d)))
 			}
 			return CapCmd("+", g.numeric(depth-1), g.numLit())
